@@ -245,6 +245,16 @@ func TimeNsec(t time.Time) sdkmath.Int         { return sdkmath.NewInt(int64(t.N
 func TimeNanos(t time.Time) sdkmath.Int {
 	return sdkmath.NewInt(t.Unix()).MulRaw(1000000000).AddRaw(int64(t.Nanosecond()))
 }
+// CloneBytes returns a copy of b that shares no memory with it.
+func CloneBytes(b []byte) []byte {
+	if b == nil {
+		return nil
+	}
+	c := make([]byte, len(b))
+	copy(c, b)
+	return c
+}
+
 func StrLen(s string) int { return len(s) }
 func StrEq(a, b string) bool { return a == b }
 
